@@ -13,7 +13,7 @@
    [sort_contract] (a permutation, sorted by d12). *)
 From Coq Require Import Sorting.Permutation Sorting.Sorted.
 From EsVerif.Common Require Import Base.
-From EsVerif.C12 Require Import Model Spec ListLemmas Proofs MainProofs CheckProofs.
+From EsVerif.C12 Require Import Model Spec ListLemmas Proofs MainProofs CheckProofs RepeatProofs.
 
 (* No limit (maxmatch <= 0): the rows are exactly the index pairs within the radius of the
    first-set point, with the code's distance -- none missing, none extra ... *)
@@ -171,6 +171,19 @@ Theorem C12_unoccupied_ids_irrelevant : forall dis cover h i rad,
   pair_info dis (fun i => filter (fun id => match hmap_find h id with None => false | Some _ => true end) (cover i)) h i rad
   = pair_info dis cover h i rad.
 Proof. exact pair_info_occupied. Qed.
+
+(* Two first-set points with the same neighbourhood (same distance to every stored point, same
+   circle cover) and the same radius get the same group (same second-set indices, same distances,
+   same order), each tagged with its own index.  This is the relation the harness checks on the
+   real code when it repeats a small first set to 10^3..10^5 points (entry `long`). *)
+Theorem C12_same_neighbourhood_same_group : forall dis cover sorter h k i i' rad,
+  (forall j, dis i j = dis i' j) -> cover i = cover i' ->
+  map (fun t => (t_i2 t, t_d t)) (match_one dis cover sorter h k i rad)
+  = map (fun t => (t_i2 t, t_d t)) (match_one dis cover sorter h k i' rad)
+  /\ (forall t, In t (match_one dis cover sorter h k i rad) -> t_i1 t = i).
+Proof.
+  intros. split; [apply same_neighbourhood_same_group; assumption|apply same_neighbourhood_rows_tagged].
+Qed.
 
 (* Non-vacuity: a concrete instance (2 input points, 4 stored points in 3 triangles, a tie)
    meets every hypothesis, and the conclusions compute. *)
